@@ -4,5 +4,5 @@ CONSTANTS
   W64 = 0
   SplitFee = TRUE
   W32 = 0
-INVARIANTS ForwardAgrees TransitAgrees AcceptedOnlyIf
+INVARIANTS WellFormed ForwardAgrees TransitAgrees AcceptedOnlyIf
 CHECK_DEADLOCK TRUE
